@@ -173,6 +173,29 @@ def sample_config(rng, family=None, families=None, n_range=(2, 14), d_range=(1, 
         used = sum(mask)
         while p["n_cuts"] > 1 and (p["n_cuts"] + 1) ** used > 64:
             p["n_cuts"] -= 1
+    # heavy tails: every numeric hyper-parameter occasionally takes a value far from the toy range (thresholds such as
+    # "20 hidden units", "batches of 40", "10 clusters" exist in real code)
+    def rare(prob=0.03):
+        return rng.random() < prob
+    if rare() and n >= 10:
+        p["n_clusters"] = K = min(n, choice(rng, [8, 10]))
+    if rare():
+        p["max_iter"] = choice(rng, [15, 25])
+    if rare():
+        p["learning_rate"] = choice(rng, [1e-4, 0.5])
+    if fam.get("mlp") and rare(0.05):
+        p["n_hidden_dim"] = choice(rng, [16, 20, 32])
+    if fam.get("sparse") and rare():
+        p["alpha"] = choice(rng, [1e-4, 100.0])
+    if fam.get("sparse") and fam.get("mlp") and rare():
+        p["M"] = 50.0
+    if fam.get("reg") and rare():
+        p["reg"] = 10.0
+    if fam.get("douglas") and rare(0.06):
+        p["temperature"] = choice(rng, [0.1, 5.0])
+        used = sum(p.get("feature_mask", [True] * d))
+        if used <= 2:
+            p["n_cuts"] = choice(rng, [4, 5])
     cfg = dict(family=family, params=p, n=n, d=d, data_seed=rng.randrange(2 ** 31), data_scale=choice(rng, list(scales)))
     if big:
         cfg["big"] = True
